@@ -218,6 +218,12 @@ def run(ctx):
     inst_ok = inst == self_attr("_aspire_instance") or (inst[0] == "f" and "aspire_instance" in inst[1])
     tgt = lambda name: ("attr", inst, name)
     ok = inst_ok and saved.get("original_log_likelihood") == tgt("log_likelihood") and saved.get("original_log_prior") == tgt("log_prior")
+    from .common import late_bound_closures
+    lbs = [(m_, c_, L_, v_) for m_ in P.methods.values() for c_, L_, v_ in late_bound_closures(m_)]
+    ctx.decide(not lbs, "C19.ph", P.ident, loc_of(lbs[0][0], lbs[0][1]) if lbs else loc_of(en),
+               "no closure of the pool handler reads a loop variable late",
+               (f"{lbs[0][0].name}: a closure created in the loop at line {lbs[0][2].lineno} reads `{lbs[0][3]}` late: every saved / restoring callback refers to the last target only") if lbs else "",
+               disc="late-binding")
     ctx.decide(ok, "C19.ph", en.ident, loc_of(en), "__enter__ saves the instance's log_likelihood and log_prior",
                f"__enter__ saves {{{', '.join(f'{k}: {T.show(v)[:50]}' for k, v in saved.items())}}}", disc="save")
     st = sorted([(s[5], s[0], s[1]) for s in ev.stores], key=lambda x: x[0])
